@@ -365,6 +365,14 @@ pub fn paths(env: &Env<'_>, budget: usize) -> Vec<Path> {
     out
 }
 
+thread_local! {
+    /// set when a policy generated on this thread dereferences an if-then-else whose branches have different depths
+    pub static COMPOUND_DEPTHS_DIFFER: std::cell::Cell<bool> = const { std::cell::Cell::new(false) };
+    /// level validation rejects every dereference (`in`, `has`, attribute or tag access) of an entity *literal* at every
+    /// level; the level and manifest checks ask the generator not to spend half of its policies on that
+    pub static LEVEL_FRIENDLY: std::cell::Cell<bool> = const { std::cell::Cell::new(false) };
+}
+
 pub struct TGen<'a> {
     pub env: Env<'a>,
     pub paths: Vec<Path>,
@@ -441,16 +449,6 @@ impl<'a> TGen<'a> {
 
     /// A (guards, expression) pair of the wanted type; guards must hold for the expression to be safe.
     pub fn term(&mut self, t: &mut Tape, ty: &RType, depth: usize) -> (Vec<E>, E) {
-        let cands = self.paths_of(ty);
-        let use_path = !cands.is_empty() && t.bool_p(3, 5);
-        if use_path {
-            let p = self.paths[cands[t.upto(cands.len())]].clone();
-            if !p.guards.is_empty() {
-                self.uses_optional = true;
-            }
-            self.max_derefs = self.max_derefs.max(p.derefs);
-            return (p.guards, p.e);
-        }
         if depth > 0 && t.bool_p(1, 8) {
             // an attribute of a *compound* entity expression: `(if c then p1 else p2).k` where p1, p2 are access paths of
             // the same entity type with (possibly) different dereference depths; the level of the target is the deeper one
@@ -473,7 +471,13 @@ impl<'a> TGen<'a> {
                 let (n, k, req) = sites[t.upto(sites.len())].clone();
                 let cands = self.paths_of(&RType::Ent(n));
                 let p1 = self.paths[cands[t.upto(cands.len())]].clone();
-                let p2 = self.paths[cands[t.upto(cands.len())]].clone();
+                let mut p2 = self.paths[cands[t.upto(cands.len())]].clone();
+                // prefer branches of different depth
+                for _ in 0..2 {
+                    if p2.derefs == p1.derefs {
+                        p2 = self.paths[cands[t.upto(cands.len())]].clone();
+                    }
+                }
                 let c = self.boolean(t, 0);
                 let target = match t.upto(4) {
                     0 => E::GetAttr(b(E::Rec(vec![("f".to_string(), E::If(b(c), b(p1.e), b(p2.e)))])), "f".to_string()),
@@ -488,14 +492,38 @@ impl<'a> TGen<'a> {
                 if !req {
                     g.push(E::Has(b(target.clone()), vec![k.clone()]));
                 }
+                if p1.derefs != p2.derefs {
+                    COMPOUND_DEPTHS_DIFFER.with(|c| c.set(true));
+                }
                 self.max_derefs = self.max_derefs.max(p1.derefs.max(p2.derefs) + 1);
                 return (g, E::GetAttr(b(target), k));
             }
         }
+        let cands = self.paths_of(ty);
+        let use_path = !cands.is_empty() && t.bool_p(3, 5);
+        if use_path {
+            let p = self.paths[cands[t.upto(cands.len())]].clone();
+            if !p.guards.is_empty() {
+                self.uses_optional = true;
+            }
+            self.max_derefs = self.max_derefs.max(p.derefs);
+            return (p.guards, p.e);
+        }
         if depth > 0 && t.bool_p(1, 12) {
             // a record literal that is projected right away: `{f: e}.f` (hides a dereference from a syntactic level count)
-            let (g, e) = self.term(t, ty, depth - 1);
-            return (g, E::GetAttr(b(E::Rec(vec![("f".to_string(), e)])), "f".to_string()));
+            // sibling fields are evaluated too although they are not projected: they may dereference deeper than `f`
+            let (mut g, e) = self.term(t, ty, depth - 1);
+            let mut fields = vec![("f".to_string(), e)];
+            for name in ["a", "z"] {
+                if t.bool_p(1, 2) {
+                    let sty = if !self.paths.is_empty() { self.paths[t.upto(self.paths.len())].ty.clone() } else { RType::Long };
+                    let (g2, e2) = self.term(t, &sty, 0);
+                    g.extend(g2);
+                    fields.push((name.to_string(), e2));
+                }
+            }
+            fields.sort_by(|x, y| x.0.cmp(&y.0));
+            return (g, E::GetAttr(b(E::Rec(fields)), "f".to_string()));
         }
         if depth > 0 {
             match ty {
@@ -625,7 +653,31 @@ impl<'a> TGen<'a> {
             },
             RType::Ent(n) => {
                 let anc: Vec<String> = self.env.s.ancestor_types(n).into_iter().collect();
-                match t.upto(5) {
+                // `e in <access path>`: the right operand is data (an entity or a set of entities reached through attributes)
+                if !(matches!(e, E::Lit(_)) && LEVEL_FRIENDLY.with(|c| c.get())) && t.bool_p(1, 5) {
+                    let mut targets: Vec<usize> = Vec::new();
+                    for (i, p) in self.paths.iter().enumerate() {
+                        let ok = match &p.ty {
+                            RType::Ent(m) => m == n || anc.contains(m),
+                            RType::Set(el) => matches!(&**el, RType::Ent(m) if m == n || anc.contains(m)),
+                            _ => false,
+                        };
+                        if ok {
+                            targets.push(i);
+                        }
+                    }
+                    if !targets.is_empty() {
+                        let p = self.paths[targets[t.upto(targets.len())]].clone();
+                        if !p.guards.is_empty() {
+                            self.uses_optional = true;
+                        }
+                        self.max_derefs = self.max_derefs.max(p.derefs);
+                        let cmp = E::Bin(BinOp::In, b(e), b(p.e));
+                        return if p.guards.is_empty() { cmp } else { conj(p.guards, cmp) };
+                    }
+                }
+                let literal_subject = matches!(e, E::Lit(_)) && LEVEL_FRIENDLY.with(|c| c.get());
+                match if literal_subject { 2 * t.upto(2) } else { t.upto(5) } {
                     0 => E::Bin(BinOp::Eq, b(e), b(E::Lit(V::Euid(gen_uid_of(t, self.env.s, n))))),
                     1 if !anc.is_empty() => {
                         let at = &anc[t.upto(anc.len())];
